@@ -177,9 +177,17 @@ def run(res, tier):
     open(empty, "w").close()
     nops = os.path.join(wd, "nops.h5")
     shutil.copy(trunc, nops)
-    for name, path in [("missing", os.path.join(wd, "does_not_exist.h5")), ("truncated", trunc), ("text", text), ("empty", empty), ("two-bunch", two)]:
+    norec = os.path.join(wd, "norecords.h5")
+    import subprocess
+    subprocess.run([pl.build.build_h5json(), "--write-empty", norec, "16"], check=True)
+    # good.h5 holds 3 phase-space records (steps 0, 1, 2): a chosen record that does not exist cannot be loaded either - not the record 3 mod 3, not the
+    # one some wrapped-around index happens to name
+    cases_ref = [("missing", os.path.join(wd, "does_not_exist.h5"), []), ("truncated", trunc, []), ("text", text, []), ("empty", empty, []), ("two-bunch", two, []),
+                 ("no-phase-space-records", norec, []), ("record-beyond-the-last", good, ["--InitialDistStep", 3]), ("record-far-beyond-the-last", good, ["--InitialDistStep", 7]),
+                 ("record-before-the-first", good, ["--InitialDistStep", -4]), ("record-far-before-the-first", good, ["--InitialDistStep", -1000])]
+    for name, path, extra in cases_ref:
         out = "ref_%s.h5" % name
-        r = pl.run(exe, base(16, "none") + ["-i", path, "-T", 0.25, "-n", 1], wd, out=out)
+        r = pl.run(exe, base(16, "none") + ["-i", path, "-T", 0.25, "-n", 1] + extra, wd, out=out)
         case = "refusal start=%s" % name
         res.eval(case, pl.chash(case, r["rc"]), trivial=False)
         produced = os.path.exists(os.path.join(wd, out))
@@ -191,7 +199,7 @@ def run(res, tier):
             res.violate("C11/refusal/%s/not-refused" % name, case, "results file produced=%s simulated=%s message=%s; log tail: %s" % (produced, simulated, msg, r["log"][-160:].replace("\n", " | ")), replay=dict(cmd=r["cmd"]))
     res.rule = ("one evaluation = one (configuration, split point, start record): leg 1, leg 2 and the uninterrupted run of the real binary compared; plus the refusal cases; "
                 "distinct = hash of case + final phase-space record hash")
-    res.bounds_done.append("all %d split points x %d configurations (grid sizes %s x impedance{none,collimator} x RenormalizeCharge{-1,0,3,4}; %d shared-parameter variants: grid shifts, RF model, stencil, phase-space size, alpha1/-f) x start records %s; 5 refusal cases" % (TOTAL - 1, len(groups), ns, len(VARIANTS) - 1, srecs))
+    res.bounds_done.append("all %d split points x %d configurations (grid sizes %s x impedance{none,collimator} x RenormalizeCharge{-1,0,3,4}; %d shared-parameter variants: grid shifts, RF model, stencil, phase-space size, alpha1/-f) x start records %s; 10 refusal cases (missing, truncated, text, empty, two-bunch, no records, chosen record outside the file)" % (TOTAL - 1, len(groups), ns, len(VARIANTS) - 1, srecs))
     return None
 
 
